@@ -5,7 +5,8 @@ RULE = ("random valid curves: degree 0..4, 0..3 distinct interior knots with mul
         "[-1,1], [a,b], grid and large-denominator knots, scalar/2-D/3-D rational points, weights none/ones/const/positive; "
         "parameters: every knot, both ends, span midpoints, random interior; representations Fraction, int knots, float; "
         "outside parameters and empty sequences.  A case is non-trivial when degree >= 2 or there is an interior knot; "
-        "distinct = distinct (U,P,W,parameters) tuples.")
+        "distinct = distinct (U,P,W,parameters) tuples."
+        " Also: parameters closer to every knot than double precision (k +- 1e-20) and the float next to every rational knot; int/float twins evaluated before Fraction data.")
 EXPLANATION = ("L2: Curve.eval vs the model's table+Horner evaluation (exact); L3: Curve.eval vs the Cox-de Boor definition "
                "`curveDef` evaluated by the driver; the theorem eval_eq_def states model = definition for all inputs.")
 ASSUMPTIONS = ["weights positive (find_roots is sampled, not modelled exactly)",
